@@ -57,6 +57,10 @@ def load():
         raise RuntimeError("sysloss imported from %s, expected %s" % (here, want))
     np.seterrcall(FP)
     np.seterr(all="call")
+    if os.environ.get("VERIF_REACH", "1") == "1":
+        from . import reach
+
+        reach.start(os.path.join(SRC, "sysloss"))
 
     class NS:
         pass
